@@ -14,8 +14,8 @@ ASSUMPTIONS = [
     "the ordered-carrier laws (total pre-order, bit equality refines numeric equality, max/min return one of their arguments) "
     "are proved for the exact carrier and exercised exhaustively on binary64 over the tie alphabet; they are not proved for "
     "all binary64 values in Coq",
-    "theorems in Coq for Highest, Lowest, HighestLowestDelta, HighestIndex, LowestIndex (newest-extreme tie rule); "
-    "SMM / MedianAbsDev: model tied bit-exactly and checked against the from-scratch median; no Coq theorem yet",
+    "theorems in Coq for all seven: Highest, Lowest, HighestLowestDelta, HighestIndex, LowestIndex (newest-extreme tie rule), "
+    "SMM (median of the last n, never panics) and MedianAbsDev (exact arithmetic; the binary64 model is tied bit-exactly)",
 ]
 TRUSTED_EXTRA = c02.TRUSTED_EXTRA
 
